@@ -5902,6 +5902,19 @@ class PyCdlib:
             if mac or efi:
                 part_type = 0
 
+        # The EFI partition describes the first EFI (platform 0xef) El Torito
+        # image and the Mac partition the second one, so they have to exist.
+        num_efi_images = 0
+        if self.eltorito_boot_catalog.validation_entry.platform_id == 0xef:
+            num_efi_images += 1
+        for sec in self.eltorito_boot_catalog.sections:
+            if sec.platform_id == 0xef:
+                num_efi_images += len(sec.section_entries)
+        if efi and num_efi_images < 1:
+            raise pycdlibexception.PyCdlibInvalidInput('EFI support requires an El Torito entry for the EFI platform')
+        if mac and num_efi_images < 2:
+            raise pycdlibexception.PyCdlibInvalidInput('Mac support requires two El Torito entries for the EFI platform')
+
         # Check that the eltorito boot file contains the appropriate
         # signature (offset 0x40, '\xFB\xC0\x78\x70').
         with inode.InodeOpenData(self.eltorito_boot_catalog.initial_entry.inode, self.logical_block_size) as (data_fp, data_len_unused):
